@@ -241,7 +241,7 @@ def run(rec, tier, seed):
     rec.notes["exempt"] = EXEMPT
     rec.notes["elements_checked"] = len(keys)
     ns = campaign.NCPU * 2
-    n_el = 18 if quick else 600
+    n_el = 40 if quick else 600
     n_mod = 2 if quick else 60
     jobs_el = [(seed * 1000, keys[i::ns], n_el) for i in range(ns)]
     campaign.parallel(rec, _shard_elements, jobs_el)
